@@ -25,6 +25,12 @@ CHECKS = {
          "(termination included) and judges the observed output of sort_tree, sort_nodes/sort_nodes_, read_swc(sort_nodes=True) and is_sorted on every "
          "enumerated table, including sorting the result a second time",
     design="4/C05", technique="TLA+ spec (SortNodes.tla) + TLC exhaustive small-scope generation, replay into the code, TLC-judged observations; algorithm layer model-checked"),
+ "C07": dict(
+    text="Reroot.tla states re-rooting and concatenation keyed by node identity (node set, exchanged root types, undirected edge set, unique root, "
+         "translated copy of the second tree, merged coincident junction, first tree unchanged as a rooted subgraph); TLC model-checks the code's path "
+         "reversal on every topology and new root, and judges the observed redirect_tree / cat_tree results for every enumerated pair of trees, junction "
+         "pair, translate mode and placement, concretised at lattice and non-representable float32 placements",
+    design="4/C07", technique="TLA+ spec (Reroot.tla) + TLC exhaustive small-scope generation, replay into the code, TLC-judged observations; algorithm layer model-checked"),
 }
 
 NA_REASON = {}
